@@ -105,23 +105,41 @@ theorem gen_sem_expr_plain {W : World} {env : Ast.Env} {cx : Ctx} (hag : Agree c
   (sim_expr hag e a t hg ht hl).plain hn
 
 /-- **statements** (expression statement, declaration with initialiser, block, if, if/else, for with every kind of init,
-while, do-while, break, continue, return): same control-flow outcome and same store, from every store, *for every fuel*
-(iterations allowed per loop). -/
-theorem gen_sem_stmt {W : World} {env : Ast.Env} {cx : Ctx} (hag : Agree cx env) (rt : Ty)
-    (s : Ir.Stmt) (s' : HlslAst.Stmt) (hg : genStmt cx s = .ok s') (hwt : Ir.wtStmt W.sig cx.vty rt s = true) :
-    ∀ fuel σ, Ast.exec W env rt fuel s' σ = Ir.exec W fuel s σ :=
-  sim_stmt hag rt s s' hg hwt
+while, do-while, break, continue, return, `switch`, `case` and `default` labels): same control-flow outcome and same
+store, from every store, *for every fuel* (iterations allowed per loop) and *for every way of entering the statement*
+(`m`: executing, or looking for the `case`/`default` label of the enclosing `switch` — C's jump into the block). -/
+theorem gen_sem_stmt {W : World} {env : Ast.Env} {cx : Ctx} (hag : Agree cx env) (rt : Ty) (lt : Option Ty)
+    (s : Ir.Stmt) (s' : HlslAst.Stmt) (hg : genStmt cx s = .ok s') (hwt : Ir.wtStmt W.sig cx.vty rt lt s = true)
+    (m : Mode) (hm : ModeOK lt m) :
+    ∀ fuel σ, Ast.exec W env rt fuel m s' σ = Ir.exec W fuel m s σ :=
+  sim_stmt hag rt s s' lt hg hwt m hm
 
-theorem gen_sem_stmts {W : World} {env : Ast.Env} {cx : Ctx} (hag : Agree cx env) (rt : Ty)
-    (b : Ir.Stmts) (b' : HlslAst.Stmts) (hg : genStmts cx b = .ok b') (hwt : Ir.wtStmts W.sig cx.vty rt b = true) :
-    ∀ fuel σ, Ast.execs W env rt fuel b' σ = Ir.execs W fuel b σ :=
-  sim_stmts hag rt b b' hg hwt
+/-- **statement lists** = `generate_scope_block`, including its label handling (the IR has `CaseLabel`/`DefaultLabel` as
+statements of their own; the exporter makes each label own the statement that follows it, leaves `case 2: ;` for a
+label followed by another label, and appends otherwise): the restructured list means the same as the flat one, in
+every mode — in particular fall-through, `break`, `default` in any position and consecutive labels are preserved. -/
+theorem gen_sem_stmts {W : World} {env : Ast.Env} {cx : Ctx} (hag : Agree cx env) (rt : Ty) (lt : Option Ty)
+    (b : Ir.Stmts) (b' : HlslAst.Stmts) (hg : genStmts cx b = .ok b') (hwt : Ir.wtStmts W.sig cx.vty rt lt b = true)
+    (m : Mode) (hm : ModeOK lt m) :
+    ∀ fuel σ, Ast.execs W env rt fuel m b' σ = Ir.execs W fuel m b σ := by
+  intro fuel σ
+  have := sim_acc hag rt b .nil b' lt hg hwt m hm fuel σ
+  rw [this]
+  cases m <;> simp [Ast.execs, endOf, bindS]
+
+/-- the label-filling step of `generate_scope_block` alone, for *any* statements (not only generated ones): pushing `s`
+onto the statements so far means "…and then `s`" -/
+theorem scope_block_push_is_append (W : World) (env : Ast.Env) (rt : Ty) (fuel : Nat) (s : HlslAst.Stmt)
+    (acc : HlslAst.Stmts) (m : Mode) (σ : Store) :
+    Ast.execs W env rt fuel m (HlslAst.pushStmt acc s) σ =
+      bindS m (Ast.execs W env rt fuel m acc σ) (fun m' σ' => Ast.execs W env rt fuel m' (.cons s .nil) σ') :=
+  execs_push W env rt fuel s acc m σ
 
 /-- **functions**: for all argument values and every initial store the emitted definition yields the same return
 value, the same final parameter values (`out`/`inout`) and the same final store (static globals). -/
 theorem gen_sem_func {W : World} {env : Ast.Env} {cx : Ctx} (hag : Agree cx env)
     (fn : Ir.Func) (afn : HlslAst.Func) (hg : genFunc cx fn = .ok afn)
-    (hwt : Ir.wtStmts W.sig cx.vty fn.ret fn.body = true) :
+    (hwt : Ir.wtStmts W.sig cx.vty fn.ret none fn.body = true) :
     ∀ fuel vals σ, Ast.callFunc W env fuel afn vals σ = Ir.callFunc W fuel fn vals σ :=
   sim_func hag hg hwt
 
@@ -131,7 +149,7 @@ functions of the typed program compute, at every call depth, every loop fuel, fo
 (One name environment for the module: emitted names unique across functions; `gen_sem_func` needs only one function's.) -/
 theorem gen_sem_program {env : Ast.Env} {cx : Ctx} (hag : Agree cx env)
     (prog : List Ir.Func) (astProg : List HlslAst.Func) (hg : genProg cx prog = .ok astProg)
-    (hwt : ∀ fn ∈ prog, Ir.wtStmts (Ir.sigOf prog) cx.vty fn.ret fn.body = true) (P : Prim) (fuel d : Nat) :
+    (hwt : ∀ fn ∈ prog, Ir.wtStmts (Ir.sigOf prog) cx.vty fn.ret none fn.body = true) (P : Prim) (fuel d : Nat) :
     Ast.phi P env astProg fuel d = Ir.phi P prog fuel d :=
   sim_phi hag hg hwt P fuel d
 
@@ -211,9 +229,33 @@ def fEx : Ir.Func where
           (.cons (.expr (.op .Assignment (.cons (.global 0) (.cons (.op .Add (.cons (.global 0) (.cons (.var 1) .nil))) .nil)))) .nil)))
       (.cons (.ret (some (.op .Subtract (.cons (.cast .int (.var 2)) (.cons (.lit (.int32 (-5))) .nil))))) .nil)
 
+/-- `switch (v1) { case 1: g0 = 10; break; case 2: case -3: g0 = g0 + 5; default: g0 = g0 + 7; }` (fall-through,
+consecutive labels, a negative label, `default` last) -/
+def swEx : Ir.Stmts :=
+  .cons (.switch .int (.var 1)
+    (.cons (.caseLabel (.intLit 1))
+    (.cons (.expr (.op .Assignment (.cons (.global 0) (.cons (.lit (.int32 10)) .nil))))
+    (.cons .break
+    (.cons (.caseLabel (.intLit 2))
+    (.cons (.caseLabel (.intLit (-3)))
+    (.cons (.expr (.op .Assignment (.cons (.global 0) (.cons (.op .Add (.cons (.global 0) (.cons (.lit (.int32 5)) .nil))) .nil))))
+    (.cons .defaultLabel
+    (.cons (.expr (.op .Assignment (.cons (.global 0) (.cons (.op .Add (.cons (.global 0) (.cons (.lit (.int32 7)) .nil))) .nil))))
+    .nil))))))))) .nil
+
+example : Ir.wtStmts W0.sig cx0.vty .int none swEx = true := by decide
+/-- what the exporter makes of it: `case 1:` owns its assignment; `case 2:` owns `case -3:`, which keeps the empty
+statement (`case 2: case -3: ;`), and the assignment that follows is appended as a sibling; `default:` owns its statement -/
+example : ∃ c1 c2 c3 d, genStmts cx0 swEx = .ok (.cons (.switch (.ident "ll") (.block
+    (.cons (.caseLabel (.lit (.intUntyped 1)) c1)
+    (.cons .break
+    (.cons (.caseLabel (.lit (.intUntyped 2)) (.caseLabel (.un .Minus (.lit (.intUntyped 3))) c2))
+    (.cons c3
+    (.cons (.defaultLabel d) .nil))))))) .nil) := ⟨_, _, _, _, rfl⟩
+
 /-- the hypotheses of the theorems hold for a loop with an `inout` parameter, a static global, an unsuffixed negative
 constant and a cast; the names agree (`agree0`); the exporter produces a definition for it -/
-example : Ir.wtStmts W0.sig cx0.vty fEx.ret fEx.body = true := by decide
+example : Ir.wtStmts W0.sig cx0.vty fEx.ret none fEx.body = true := by decide
 example : ∃ afn, genFunc cx0 fEx = .ok afn := ⟨_, rfl⟩
 example : Agree cx0 env0 := agree0
 /-- …and the instance of `gen_sem_func` it yields -/
